@@ -93,6 +93,7 @@ def main(tier: str, seed: int, opts) -> int:
         "fault_kinds_fired": {"construction_failed_part_way_after_ids_were_consumed": stats.get("failed_builds", 0),
                               "of_which_killed_by_injected_exception": stats.get("interrupted_builds", 0),
                               "graph_built_from_a_worker_thread": stats.get("builds_in_worker_thread", 0),
+                              "graph_built_by_a_user_subclass_of_the_viewer": stats.get("builds_by_a_user_subclass", 0),
                               "first_to_string_killed_then_repeated": stats.get("to_string_interrupted", 0),
                               "sessions_in_a_python_O_process": sum(1 for j in jobs if "@optimize" in str(j.get("hashseed")))},
         "distinct_abstract_histories": len(hashes),
